@@ -388,4 +388,214 @@ Proof.
     + right. eapply ever_step; [exact Hs0|exact He].
 Qed.
 
+(* ------------------------------------------------------------------------------------------------------------ *)
+(* C04: a due repeat is sent.  If the armed deadline of an idle group lies more than repeat_interval after the     *)
+(* instant integration i's log entry was written, the flush at that deadline notifies i again (reason: repeat, or *)
+(* any stronger one), by deadline + flush timeout — for any accepted run with no log GC / gossip merge in it.     *)
+(* ------------------------------------------------------------------------------------------------------------ *)
+
+Definition log_op (e : ev) : Prop :=
+  e = ENflogGC \/ exists j en, e = ENflogMerge j en \/ e = ENflogLoad j en.
+Definition no_log_ops (h : list (Z * ev)) : Prop := forall t e, In (t, e) h -> ~ log_op e.
+
+Lemma no_log_ops_tail d h : no_log_ops (d :: h) -> no_log_ops h.
+Proof. intros H t e Hin. apply (H t e). right. exact Hin. Qed.
+
+(* the log slot of integration i is untouched by every event that is not its own dedup/attempt or a log operation *)
+Lemma nflog_frame s t e s' o :
+  step cfg s t e = Some (s', o) ->
+  targets e \/ log_op e \/ s_nflog s' !! i = s_nflog s !! i.
+Proof.
+  intros H. unfold step in H. destruct (time_ok s t); [|discriminate]. cbn [negb] in H.
+  destruct e as [a|tau sup|j|j oc|j| | |j en|j en|].
+  - right; right. destruct (s_group s); inversion H; subst; reflexivity.
+  - right; right. destruct (s_group s) as [g|]; [|discriminate]. destruct (gr_flight g); [discriminate|].
+    destruct (_ && _); [|discriminate]. cbn [negb] in H. inversion H; subst. reflexivity.
+  - destruct (decide (j = i)) as [->|Hne]; [left; left; reflexivity|]. right; right.
+    destruct (s_group s) as [g|]; [|discriminate]. destruct (gr_flight g) as [fl|]; [|discriminate].
+    destruct (fl_chains fl !! j) as [c|]; [|discriminate]. destruct c; try discriminate.
+    destruct (g_ints cfg !! j); [|discriminate]. destruct (s_nflog s !! j); [|discriminate].
+    destruct (bool_decide _); [|destruct (_ && _)]; inversion H; subst; cbn [s_nflog]; try reflexivity.
+    rewrite set_nth_lookup. destruct (decide (j = i)); [contradiction|reflexivity].
+  - destruct (decide (j = i)) as [->|Hne]; [left; right; left; eexists; reflexivity|]. right; right.
+    destruct (s_group s) as [g|]; [|discriminate]. destruct (gr_flight g) as [fl|]; [|discriminate].
+    destruct (fl_chains fl !! j) as [c|]; [|discriminate]. destruct c; try discriminate.
+    destruct (g_ints cfg !! j); [|discriminate]. destruct (s_nflog s !! j); [|discriminate].
+    destruct oc; inversion H; subst; cbn [s_nflog]; try reflexivity.
+    rewrite set_nth_lookup. destruct (decide (j = i)); [contradiction|reflexivity].
+  - right; right. destruct (s_group s) as [g|]; [|discriminate]. destruct (gr_flight g) as [fl|]; [|discriminate].
+    destruct (fl_chains fl !! j) as [c|]; [|discriminate].
+    destruct c; try discriminate; (destruct (t <? fl_deadline fl); [discriminate|]); inversion H; subst; reflexivity.
+  - right; right. destruct (s_group s) as [g|]; [|discriminate]. destruct (gr_flight g) as [fl|]; [|discriminate].
+    destruct (negb _); [discriminate|]. destruct (forallb chain_ok _); [destruct (is_nil _)|]; inversion H; subst; reflexivity.
+  - right; left; left; reflexivity.
+  - right; left; right; eauto.
+  - right; left; right; eauto.
+  - right; right. inversion H; subst. reflexivity.
+Qed.
+
+Lemma needs_update_due en F R sr rep now :
+  F <> [] -> n_ts en < now - rep -> needs_update (Some en) F R sr rep now <> RNo.
+Proof.
+  intros HF Hdue. unfold needs_update.
+  destruct (subset F (n_firing en)); cbn [negb]; [|destruct (is_nil (n_firing en)); discriminate].
+  destruct F as [|f F]; [contradiction|]. cbn [is_nil].
+  destruct (sr && _); [discriminate|].
+  assert (Hd : n_ts en <? now - rep = true) by lia. rewrite Hd. discriminate.
+Qed.
+
+Lemma wait_phase_due h : forall s s' outs g fl f en,
+  run cfg s h = Some (s', outs) -> fair h -> no_log_ops h ->
+  s_group s = Some g -> gr_flight g = Some fl -> fl_chains fl !! i = Some CWait ->
+  In f (fl_post fl) -> f_id f = x -> f_res f = false ->
+  s_nflog s !! i = Some (Some en) -> n_ts en < fl_tick fl - g_repeat cfg ->
+  s_clock s <= fl_deadline fl -> fl_deadline fl < s_clock s' -> notified outs.
+Proof.
+  induction h as [|[t e] h IH]; intros s s' outs g fl f en H Hfair Hnl Hg Hf Hc Hin Hid Hres Hen Hdue Hle Hlt;
+    cbn [run] in H.
+  - inversion H; subst. lia.
+  - destruct (step cfg s t e) as [[s1 o1]|] eqn:Hs; [|discriminate].
+    destruct (run cfg s1 h) as [[s2 o2]|] eqn:Hr; [|discriminate]. inversion H; subst.
+    pose proof (flight_bounded _ _ _ _ _ _ _ _ Hs Hg Hf) as Hb.
+    pose proof (step_time _ _ _ _ _ _ Hs) as [_ Hclk].
+    pose proof (nflog_frame _ _ _ _ _ Hs) as Hfr.
+    destruct (flight_frame _ _ _ _ _ _ _ Hs Hg Hf)
+      as [->|(g' & fl' & Hg' & Hf' & Hpost & _ & Hd' & _ & _ & Htg)].
+    { exfalso. unfold step in Hs. destruct (time_ok s t); [|discriminate]. cbn [negb] in Hs. rewrite Hg, Hf in Hs.
+      rewrite (chain_not_done_blocks_end _ _ _ Hc eq_refl) in Hs. discriminate. }
+    destruct Htg as [[->|[(oc & ->)| ->]]|Hsame].
+    + assert (HxF : In x (ids_of false (fl_post fl))).
+      { apply In_ids_of. exists f. auto. }
+      unfold step in Hs. destruct (time_ok s t); [|discriminate]. cbn [negb] in Hs.
+      rewrite Hg, Hf, Hc in Hs. destruct (g_ints cfg !! i) as [ic|]; [|discriminate]. rewrite Hen in Hs.
+      assert (HF : ids_of false (fl_post fl) <> []) by (intros E; rewrite E in HxF; destruct HxF).
+      pose proof (needs_update_due en _ (ids_of true (fl_post fl)) (i_send_resolved ic) _ _ HF Hdue) as Hne.
+      destruct (bool_decide _) eqn:Hno; [apply bool_decide_eq_true in Hno; contradiction|].
+      assert (Hnil : is_nil (ids_of false (fl_post fl)) = false).
+      { destruct (ids_of false (fl_post fl)); [contradiction|reflexivity]. }
+      rewrite Hnil, andb_false_r in Hs. injection Hs as <- <-. apply notified_app_r.
+      match goal with Hr' : run cfg ?s1 h = Some _ |- _ =>
+        match s1 with context [with_chain fl i (CRetry ?r ?sent ?F ?R 0)] =>
+          apply (retry_phase h s1 s' o2 (with_flight g (with_chain fl i (CRetry r sent F R 0)))
+                   (with_chain fl i (CRetry r sent F R 0)) r sent F R 0%nat f Hr' (fair_tail _ _ Hfair) eq_refl eq_refl)
+        end end.
+      * cbn [fl_chains with_chain]. rewrite set_nth_lookup. destruct (decide (i = i)); [|congruence].
+        destruct (decide _) as [_|Hn]; [reflexivity|].
+        exfalso. apply Hn. apply lookup_lt_Some in Hc. exact Hc.
+      * destruct (i_send_resolved ic); [exact Hin|]. apply In_filter_b. split; [exact Hin|]. rewrite Hres. reflexivity.
+      * exact Hid.
+      * exact Hres.
+      * cbn. lia.
+      * cbn. lia.
+    + exfalso. unfold step in Hs. destruct (time_ok s t); [|discriminate]. cbn [negb] in Hs.
+      rewrite Hg, Hf, Hc in Hs. discriminate.
+    + exfalso. destruct Hfair as (_ & _ & _ & H4). apply (H4 t). left. reflexivity.
+    + rewrite Hc in Hsame. rewrite <- Hpost in Hin.
+      assert (Hen' : s_nflog s1 !! i = Some (Some en)).
+      { destruct Hfr as [Ht|[Hl|Heq]].
+        - (* a targeting event would have changed chain i *)
+          exfalso. destruct Ht as [->|[(oc & ->)| ->]]; unfold step in Hs;
+            (destruct (time_ok s t); [|discriminate]); cbn [negb] in Hs; rewrite Hg, Hf, Hc in Hs.
+          + destruct (g_ints cfg !! i); [|discriminate]. rewrite Hen in Hs.
+            destruct (bool_decide _); [|destruct (_ && _)]; injection Hs as <- <-; cbn in Hg'; injection Hg' as <-;
+              cbn in Hf'; injection Hf' as <-; cbn [fl_chains with_chain] in Hsame;
+              rewrite set_nth_lookup in Hsame; (destruct (decide (i = i)); [|congruence]);
+              (destruct (decide _) as [_|Hn]; [discriminate|apply Hn; apply lookup_lt_Some in Hc; exact Hc]).
+          + discriminate.
+          + destruct (t <? fl_deadline fl); [discriminate|]. injection Hs as <- <-. cbn in Hg'. injection Hg' as <-.
+            cbn in Hf'. injection Hf' as <-. cbn [fl_chains with_chain] in Hsame.
+            rewrite set_nth_lookup in Hsame. destruct (decide (i = i)); [|congruence].
+            destruct (decide _) as [_|Hn]; [discriminate|apply Hn; apply lookup_lt_Some in Hc; exact Hc].
+        - exfalso. apply (Hnl t e); [left; reflexivity|exact Hl].
+        - rewrite Heq. exact Hen. }
+      assert (Htick : fl_tick fl' = fl_tick fl).
+      { clear -Hs Hg Hf Hg' Hf'. unfold step in Hs. destruct (time_ok s t); [|discriminate]. cbn [negb] in Hs.
+        rewrite Hg in Hs.
+        destruct e as [a|tau sup|j|j oc|j| | |j en'|j en'|]; try rewrite Hf in Hs; try discriminate.
+        - injection Hs as <- <-. cbn in Hg'. injection Hg' as <-. cbn in Hf'. congruence.
+        - destruct (fl_chains fl !! j) as [c|]; [|discriminate]. destruct c; try discriminate.
+          destruct (g_ints cfg !! j); [|discriminate]. destruct (s_nflog s !! j); [|discriminate].
+          destruct (bool_decide _); [|destruct (_ && _)]; injection Hs as <- <-; cbn in Hg'; injection Hg' as <-;
+            cbn in Hf'; injection Hf' as <-; reflexivity.
+        - destruct (fl_chains fl !! j) as [c|]; [|discriminate]. destruct c; try discriminate.
+          destruct (g_ints cfg !! j); [|discriminate]. destruct (s_nflog s !! j); [|discriminate].
+          destruct oc; injection Hs as <- <-; cbn in Hg'; injection Hg' as <-; cbn in Hf'; injection Hf' as <-; reflexivity.
+        - destruct (fl_chains fl !! j) as [c|]; [|discriminate].
+          destruct c; try discriminate; (destruct (t <? fl_deadline fl); [discriminate|]); injection Hs as <- <-;
+            cbn in Hg'; injection Hg' as <-; cbn in Hf'; injection Hf' as <-; reflexivity.
+        - destruct (negb _); [discriminate|]. destruct (forallb chain_ok _); [destruct (is_nil _)|];
+            injection Hs as <- <-; cbn in Hg'; try discriminate; injection Hg' as <-; cbn in Hf'; discriminate.
+        - injection Hs as <- <-. cbn in Hg'. try rewrite Hg in Hg'. injection Hg' as <-. congruence.
+        - destruct (s_nflog s !! j); [|discriminate]. injection Hs as <- <-. cbn in Hg'. try rewrite Hg in Hg'.
+          injection Hg' as <-. congruence.
+        - destruct (s_nflog s !! j); [|discriminate]. injection Hs as <- <-. cbn in Hg'. try rewrite Hg in Hg'.
+          injection Hg' as <-. congruence.
+        - injection Hs as <- <-. cbn in Hg'. try rewrite Hg in Hg'. injection Hg' as <-. congruence. }
+      apply notified_app_r.
+      apply (IH s1 s' o2 g' fl' f en Hr (fair_tail _ _ Hfair) (no_log_ops_tail _ _ Hnl) Hg' Hf' Hsame Hin Hid Hres Hen');
+        [rewrite Htick; exact Hdue|lia|lia].
+Qed.
+
+Lemma idle_phase_due h : forall s s' outs g M en,
+  run cfg s h = Some (s', outs) -> fair h -> no_log_ops h ->
+  s_group s = Some g -> gr_flight g = None -> has_x g ->
+  s_nflog s !! i = Some (Some en) -> n_ts en < gr_deadline g - g_repeat cfg ->
+  Z.max (gr_deadline g) (s_clock s) <= M -> M <= T -> (i < length (g_ints cfg))%nat -> 0 <= g_timeout cfg ->
+  M + g_timeout cfg < s_clock s' -> notified outs.
+Proof.
+  induction h as [|[t e] h IH]; intros s s' outs g M en H Hfair Hnl Hg Hf Hx Hen Hdue HM HT Hi Hto Hlt; cbn [run] in H.
+  - inversion H; subst. lia.
+  - destruct (step cfg s t e) as [[s1 o1]|] eqn:Hs; [|discriminate].
+    destruct (run cfg s1 h) as [[s2 o2]|] eqn:Hr; [|discriminate]. inversion H; subst.
+    pose proof (overdue_impossible _ _ _ _ _ _ _ Hs Hg Hf) as Hb.
+    pose proof (step_time _ _ _ _ _ _ Hs) as [Hge Hclk].
+    pose proof (nflog_frame _ _ _ _ _ Hs) as Hfr.
+    destruct (idle_step _ _ _ _ _ _ _ Hs Hg Hf) as [(sup & ->)|(g' & Hg' & Hf' & Hd')].
+    + assert (Hnsup : ~ In x sup).
+      { destruct Hfair as (_ & H2 & _). apply (H2 t (gr_deadline g)). left. reflexivity. }
+      destruct Hx as (a & Hina & Hida & Hfa).
+      unfold step in Hs. destruct (time_ok s t); [|discriminate]. cbn [negb] in Hs. rewrite Hg, Hf in Hs.
+      destruct (_ && _); [|discriminate]. cbn [negb] in Hs.
+      set (all := sort_f (map (freeze t) (gr_alerts g))) in *.
+      set (post := filter (fun f => negb (bool_decide (f_id f ∈ sup))) all) in *.
+      assert (Hfrz : In (freeze t a) post).
+      { apply In_filter_b. split.
+        - apply In_sort_f. apply in_map. exact Hina.
+        - cbn. rewrite Hida. apply negb_true_iff. apply bool_decide_eq_false. intros Hel.
+          apply Hnsup. apply elem_of_list_In. exact Hel. }
+      assert (Hnil : is_nil post = false) by (destruct post; [destruct Hfrz|reflexivity]).
+      rewrite Hnil in Hs. injection Hs as <- <-. apply notified_app_r.
+      apply (wait_phase_due h _ s' o2 _ _ (freeze t a) en Hr (fair_tail _ _ Hfair) (no_log_ops_tail _ _ Hnl) eq_refl eq_refl).
+      * cbn. rewrite list_lookup_fmap. destruct (g_ints cfg !! i) eqn:Hl; [reflexivity|].
+        apply lookup_ge_None in Hl. lia.
+      * exact Hfrz.
+      * exact Hida.
+      * cbn. apply (firing_until_not_resolved T); [exact Hfa|lia].
+      * cbn [s_nflog]. exact Hen.
+      * cbn [fl_tick]. exact Hdue.
+      * cbn. lia.
+      * cbn. lia.
+    + assert (Hx' : has_x g').
+      { destruct e as [b|tau sup|j|j oc|j| | |j en'|j en'|];
+          unfold step in Hs; (destruct (time_ok s t); [|discriminate]); cbn [negb] in Hs; rewrite Hg in Hs;
+          try (rewrite Hf in Hs; discriminate).
+        - injection Hs as <- <-. cbn in Hg'. injection Hg' as <-. cbn.
+          apply store_set_keeps; [exact Hx|]. intros Hb'.
+          destruct Hfair as (H1 & _). apply (H1 t). { left. reflexivity. } exact Hb'.
+        - rewrite Hf in Hs. destruct (_ && _); [|discriminate]. cbn [negb] in Hs. injection Hs as <- <-.
+          cbn in Hg'. injection Hg' as <-. cbn in Hf'. discriminate.
+        - injection Hs as <- <-. cbn in Hg'. injection Hg' as <-. exact Hx.
+        - destruct (s_nflog s !! j); [|discriminate]. injection Hs as <- <-. cbn in Hg'. injection Hg' as <-. exact Hx.
+        - destruct (s_nflog s !! j); [|discriminate]. injection Hs as <- <-. cbn in Hg'. injection Hg' as <-. exact Hx.
+        - injection Hs as <- <-. cbn in Hg'. injection Hg' as <-. exact Hx. }
+      assert (Hen' : s_nflog s1 !! i = Some (Some en)).
+      { destruct Hfr as [Ht|[Hl|Heq]].
+        - exfalso. destruct Ht as [->|[(oc & ->)| ->]]; unfold step in Hs;
+            (destruct (time_ok s t); [|discriminate]); cbn [negb] in Hs; rewrite Hg, Hf in Hs; discriminate.
+        - exfalso. apply (Hnl t e); [left; reflexivity|exact Hl].
+        - rewrite Heq. exact Hen. }
+      apply notified_app_r.
+      apply (IH s1 s' o2 g' M en Hr (fair_tail _ _ Hfair) (no_log_ops_tail _ _ Hnl) Hg' Hf' Hx' Hen'); try assumption; try lia.
+Qed.
+
 End Liveness.
